@@ -48,13 +48,18 @@ macro "rb_tac" : tactic => `(tactic|
        Bool.false_eq_true, forall_const, false_implies, true_implies, reduceCtorEq] at * <;>
      repeat' (first
        | omega
-       | (simp only [SymOp.onBin, tdiv_lit V hV, e3, Bin.mk.injEq, true_and, and_true]; omega)
-       | split)))
+       | (simp only [SymOp.onBin, tdiv_lit V hV, e3, Bin.mk.injEq, true_and, and_true] <;> omega)
+       | split
+       | simp only [SymOp.onBin, tdiv_lit V hV, e3])))
 
 theorem rb0_FF (y : Sym) (h : y.WF) (hs : Sw y false false) (seg view ax tof : Int) (hv : 0 ≤ view ∧ view < y.V) :
     (y.symOpBin0 seg view ax).onBin (y.basic ⟨seg, view, ax, 0, tof⟩) = ⟨seg, view, ax, 0, tof⟩ := by rb_tac
 theorem rb0_FT (y : Sym) (h : y.WF) (hs : Sw y false true) (seg view ax tof : Int) (hv : 0 ≤ view ∧ view < y.V) :
     (y.symOpBin0 seg view ax).onBin (y.basic ⟨seg, view, ax, 0, tof⟩) = ⟨seg, view, ax, 0, tof⟩ := by rb_tac
+set_option maxHeartbeats 1000000 in
 theorem rb0_TT (y : Sym) (h : y.WF) (hs : Sw y true true) (seg view ax tof : Int) (hv : 0 ≤ view ∧ view < y.V) :
     (y.symOpBin0 seg view ax).onBin (y.basic ⟨seg, view, ax, 0, tof⟩) = ⟨seg, view, ax, 0, tof⟩ := by rb_tac
+theorem rbg_FF (y : Sym) (h : y.WF) (hs : Sw y false false) (seg view ax tang tof : Int) (hv : 0 ≤ view ∧ view < y.V)
+    (htang : tang ≠ 0) :
+    (y.symOpGeneral tang seg view ax).onBin (y.basic ⟨seg, view, ax, tang, tof⟩) = ⟨seg, view, ax, tang, tof⟩ := by rb_tac
 end StirVerif.C03
